@@ -100,7 +100,7 @@ def run(tier):
     n_arith = 40 if quick else 600
     nmax = 4
     r = rng(f"{PROP}-{tier}-styles")
-    cases = pipeline.generate_cases(n_gen, f"{PROP}-{tier}",
+    cases = pipeline.load_corpus(PROP) + pipeline.generate_cases(n_gen, f"{PROP}-{tier}",
                                     families=["simult", "choice", "branchy", "param", "finite", "poly", "cont", "guarded"])
     ar = [arith_stress_case(r, i) for i in range(n_arith)]
     # long decimals (7+ places, tiny constants): decimal and fraction notation must denote the same rational
